@@ -38,6 +38,9 @@ CHECKS = {
  "C20": dict(cat="exploration", tech="model-based differential monitor: every internal queue driven through its production call patterns against a slice / stable-priority-queue model",
     text="5 000 (quick) / 500 000 (thorough) PRNG operation sequences over LockQueue / LockCommandQueue / LockManagerQueue (all small constructor triples and the production ones), the per-key holder queue (through LockManager.AddLock/RemoveLock/GetLockedLock), the wait queue and (priority) ring queues (through AddWaitLock/GetWaitLock), the long-wait queues (through LockDB.AddTimeOut/AddExpried/RemoveLong*/the sweeper's drain) and the free pools; every returned element, Len, Head, Tail, MaxPriority and the iterated content are compared with a plain model; counters record node-boundary crossings, growths, resizes, representation switches and restructures with holes actually taken. One defect repaired (long-wait queue restructure).",
     note="Operations are only generated in states production can reach (Shrink is never called in production and is not generated; Rellac only on an empty queue; Reset of holder/wait queues only when empty); restrictions are listed in the evidence assumptions.", ref="3/C20"),
+ "C11": dict(cat="fault_enumeration", tech="trace monitor + log-file oracle on a stand-alone leader (acknowledgement = own log flush), faults injected at the acknowledgement handler and at the log file",
+    text="On the E1 engine 45% of the lock requests carry the require-ack flag (fresh grants and grants from the wait queue). The monitors decide: SUCCED is reported only after a LOCK record with the require-ack flag for that key/LockId is present in the leader's log files (read at reply time); while the hold awaits acknowledgement other requests for the LockId are answered LOCK_ACK_WAITING and never succeed; a pending hold that times out, is cancelled or whose log write fails ends with exactly one error reply, leaves the census, its value change is undone (value oracle) and waiters are served; nothing leaks after the drain. The pre-emption orders are constructed by injecting ticks (wait time-out), unlock-first / cancel-wait and probes at the entry of the acknowledgement handler; AOF record handling is serialised with the script (hook around AofChannel.Handle), so every execution replays. In a tenth of the scripts the append file's descriptor is closed so that log writes fail, and in a tenth re-entrant re-locks carry the flag: both are open known findings identified by that history. Five defects were repaired.",
+    note="Stand-alone leader only: follower acknowledgements (delayed / negative / lost), ack modes and leader demotion need the cluster engine and are not covered by this check. Value operations on require-ack requests are off by default (VERIF_C11_DATA=1).", ref="3/C11"),
 }
 NA = {}
 ALL = ["C%02d" % i for i in range(1, 21)]
@@ -67,7 +70,7 @@ def main():
             "guard": "verif",
             "enable": "go test -tags verif -overlay /verif/.build/overlay.json (harness sources under /verif/harness are mapped into the package as zz_verif_*_test.go)",
             "baseline_off_cmd": "cd /repo && export GOFLAGS=-mod=mod GOPROXY=off GOSUMDB=off GOTOOLCHAIN=local && go test -json -vet=off -count=1 -timeout 25m ./... ; rm -f /repo/server/append.aof.* /repo/server/rewrite.aof*",
-            "source_commits": ["79c291c", "7454dda"],
+            "source_commits": ["79c291c", "7454dda", "edb93de"],
             "add_only": True,
         },
         "engines": [
